@@ -67,7 +67,6 @@ var c15MapRanges = map[string][2]string{
 	"html/tree.(*TargetCollector).CacheTargetPageCounters | tc.CounterLookupItems": {"insensitive", "each iteration updates its own lookup item and sets constant flags on the page maker entry the item points to"},
 	"html/tree.(*TargetCollector).CacheTargetPageCounters | missingCounters":       {"insensitive", "existence search: the first hit sets a constant flag and re-parses once, then breaks"},
 	"html/tree.newComputedStyle | cascaded":                                        {"insensitive", "stores each custom property under its own name k.Var (keys with an empty Var are skipped); distinct keys have distinct names"},
-	"text.GetLangQuotes | langQuotes":                                              {"insensitive", "keeps the longest key that prefixes lang; two different keys of the same length cannot both be prefixes of one string, so the maximum is unique"},
 	"svg.newSVGContext | colorAttributes":                                          {"insensitive", "rewrites the entry of its own key; the only other entry it reads is \"color\", which is not a key of colorAttributes"},
 	"svg.(*svgContext).inheritDefs | tree.defs":                                    {"insensitive", "inheritElement resolves the whole href chain of its argument first, so the result per element does not depend on which element is visited first"},
 }
@@ -328,6 +327,65 @@ func classifyMapRange(info *types.Info, rs *ast.RangeStmt, after []ast.Stmt) str
 			case *ast.BranchStmt:
 			default:
 				okAppend = false
+			}
+		}
+	}
+	// P5: longest key that prefixes one fixed string: `if strings.HasPrefix(x, key) && len(key) > len(best) { best = key }`.
+	// Two keys of the same length that both prefix x are equal, so the strict maximum is unique whatever the order.
+	if len(rs.Body.List) == 1 {
+		if ifs, ok := rs.Body.List[0].(*ast.IfStmt); ok && ifs.Else == nil && ifs.Init == nil && len(ifs.Body.List) == 1 {
+			var conj []ast.Expr
+			var split func(e ast.Expr)
+			split = func(e ast.Expr) {
+				if be, ok := ast.Unparen(e).(*ast.BinaryExpr); ok && be.Op == token.LAND {
+					split(be.X)
+					split(be.Y)
+					return
+				}
+				conj = append(conj, ast.Unparen(e))
+			}
+			split(ifs.Cond)
+			lenOf := func(e ast.Expr) ast.Expr {
+				if call, ok := e.(*ast.CallExpr); ok && len(call.Args) == 1 {
+					if id, ok := call.Fun.(*ast.Ident); ok && id.Name == "len" && info.Uses[id] == types.Universe.Lookup("len") {
+						return call.Args[0]
+					}
+				}
+				return nil
+			}
+			as, isAssign := ifs.Body.List[0].(*ast.AssignStmt)
+			if isAssign && as.Tok == token.ASSIGN && len(as.Lhs) == 1 && len(as.Rhs) == 1 && isKey(as.Rhs[0]) {
+				if best, ok := as.Lhs[0].(*ast.Ident); ok {
+					prefix, longer := false, false
+					for _, e := range conj {
+						if call, ok := e.(*ast.CallExpr); ok && len(call.Args) == 2 && isKey(call.Args[1]) {
+							if sel, ok := call.Fun.(*ast.SelectorExpr); ok {
+								if fn, ok := info.Uses[sel.Sel].(*types.Func); ok && fn.FullName() == "strings.HasPrefix" {
+									if x, ok := call.Args[0].(*ast.Ident); ok && info.Uses[x] != info.Uses[best] && !isKey(x) {
+										prefix = true
+									}
+								}
+							}
+						}
+						if be, ok := e.(*ast.BinaryExpr); ok {
+							var big, small ast.Expr
+							switch be.Op {
+							case token.GTR:
+								big, small = lenOf(be.X), lenOf(be.Y)
+							case token.LSS:
+								big, small = lenOf(be.Y), lenOf(be.X)
+							}
+							if big != nil && small != nil && isKey(big) {
+								if id, ok := small.(*ast.Ident); ok && info.Uses[id] == info.Uses[best] {
+									longer = true
+								}
+							}
+						}
+					}
+					if prefix && longer {
+						return "longest key prefixing one string, kept under a strict length comparison (the maximum is unique)"
+					}
+				}
 			}
 		}
 	}
